@@ -59,7 +59,8 @@ def make_history(rng, length):
     for _ in range(length):
         k = rng.random()
         if k < 0.22:
-            ops.append({"op": "add", "r": rand_reaction(rng, names), "dup_of_existing": rng.random() < 0.3})
+            dup = rng.random() < 0.4
+            ops.append({"op": "add", "r": rand_reaction(rng, names), "dup_of_existing": dup, "twin": dup and rng.random() < 0.4})
         elif k < 0.30:
             ops.append({"op": "add_string", "r": rand_reaction(rng, names), "fmt": rng.choice(["naunet", "kida"])})
         elif k < 0.38:
@@ -90,6 +91,10 @@ def make_extend(rng):
     rs = [rand_reaction(rng, names) for _ in range(rng.randint(3, 12))]
     if rng.random() < 0.6 and rs:
         rs.append(dict(rng.choice(rs)))            # planted duplicate
+    if rng.random() < 0.5 and rs:
+        t = dict(rng.choice(rs))                   # planted window twin: same species, another window - not a duplicate
+        t["tmin"], t["tmax"] = (t["tmin"] + 7.0 if t["tmin"] > 0 else 25.0), (t["tmax"] + 50.0 if t["tmax"] > 0 else 450.0)
+        rs.append(t)
     for i, r in enumerate(rs):
         r["idx"] = i + 1
     c = {"kind": "extend", "names": names, "rs": rs, "fmt": "naunet",
@@ -237,6 +242,10 @@ def run_api(case, ctx, obs, viol):
                 r = op["r"]
                 if op.get("dup_of_existing") and model.held:
                     r = dict(rng.choice(model.held)[1])
+                    if op.get("twin"):
+                        # same species as a held reaction, another temperature window: a different reaction for every edit and report
+                        r["tmin"], r["tmax"] = (r["tmin"] + 7.0 if r["tmin"] > 0 else 25.0), (r["tmax"] + 50.0 if r["tmax"] > 0 else 450.0)
+                        obs["window_twins_added"] += 1
                 o = mk(r)
                 net.add_reaction(o)
                 model.add(objs[id(o)][0], r)
